@@ -125,6 +125,42 @@ def flow(args):
         a_ = c1.serialize() if r1 == ("ok", True) else b"sign-did-not-sign"
         b_ = c2.serialize() if r2 == ("ok", True) else b"sign_with_private_keys-did-not-sign"
         cases.append({"id": "%s.api.%d" % (tag, s), "kind": "eq", "a": B(b_), "b": B(a_), "what": "sign_with_private_keys-differs-from-sign", "label": "signing-api"})
+    # partial signatures much shorter than the usual 71-73 bytes: signed with the nonce (n+1)/2, whose r has 21 bytes (a valid ECDSA
+    # signature under the wallet's own keys; RFC 6979 produces one below 70 bytes about once in 12000).  The container has to carry
+    # them like any other, and they have to finalise to a valid transaction.
+    from buidl.ecc import Signature
+    N_ = 0xFFFFFFFFFFFFFFFFFFFFFFFFFFFFFFFEBAAEDCE6AF48A03BBFD25E8CD0364141
+    R_HALF = 0x3B78CE563F89A0ED9414F5AA28AD0D96D6795F9C63
+
+    class ShortNonceKey:
+        def __init__(self, pk):
+            self.pk, self.point, self.secret, self.network = pk, pk.point, pk.secret, getattr(pk, "network", "testnet")
+
+        def sign(self, z):
+            s_ = (2 * (z + R_HALF * self.pk.secret)) % N_          # k = 1/2, so k^-1 = 2
+            return Signature(R_HALF, N_ - s_ if s_ > N_ // 2 else s_)
+
+        def __getattr__(self, name):
+            return getattr(self.pk, name)
+    c3 = w.clone()
+    short_keys = []
+    for s in range(min(m, nsign) if nsign > 1 else 1):
+        for j in range(nin):
+            short_keys.append(ShortNonceKey(w.roots[s].traverse("%s/0/%d" % (w.bip32base, 0 if w.reuse else j)).private_key))
+    r3 = outcome(c3.sign_with_private_keys, short_keys)
+    if r3 == ("ok", True) and all(len(sg) <= 62 for pin in c3.psbt_ins for sg in pin.sigs.values()) and any(pin.sigs for pin in c3.psbt_ins):
+        raw3 = log_psbt("shortsig", c3, [len(c3.psbt_ins[0].sigs)] * nin)
+        with contextlib.redirect_stdout(io.StringIO()):
+            back3 = outcome(lambda: PSBT.parse(io.BytesIO(raw3), network="testnet"))
+            fin3 = outcome(back3[1].finalize) if back3[0] == "ok" else ("raise", None)
+            ftx3 = outcome(back3[1].final_tx) if fin3[0] == "ok" else ("raise", None)
+            ok3 = False
+            if ftx3[0] == "ok":
+                for k_, ti in enumerate(ftx3[1].tx_ins):
+                    ti._value = w.base.psbt_ins[k_].tx_in._value
+                    ti._script_pubkey = w.base.psbt_ins[k_].tx_in._script_pubkey
+                ok3 = all(outcome(ftx3[1].verify_input, k_) == ("ok", True) for k_ in range(nin))
+        cases.append({"id": "%s.shortsig.final" % tag, "kind": "eq", "a": [ok3], "b": [True], "what": "psbt-with-short-partial-signatures-does-not-complete", "label": "short-signatures"})
     subsets = [s for r_ in range(0, nsign + 1) for s in itertools.combinations(range(nsign), r_)]
     for sub in subsets:
         results = {}
@@ -313,8 +349,9 @@ def run(ctx):
     for ci, (kind, m, n, nin) in enumerate([("p2wpkh", 1, 1, 2), ("p2sh", 1, 2, 2), ("p2wsh", 2, 3, 2)] + ([] if q else [("p2pkh", 1, 1, 3), ("p2sh-p2wpkh", 1, 1, 2), ("p2sh-p2wsh", 2, 2, 3)])):
         jobs.append((kind, m, n, nin, rng.randrange(2 ** 60), "%s_%dof%d_%din_%d_reuse" % (kind, m, n, nin, ci), False))
     cases = []
-    with ProcessPoolExecutor(max_workers=NCPU) as ex:
-        for res in ex.map(flow, jobs):
+    from ..core import pool_map
+    if True:
+        for res in pool_map(ctx, flow, jobs):
             for c in res:
                 if "error" in c:
                     raise Exception("wallet construction failed: " + c["error"])
